@@ -69,7 +69,7 @@ def make_model(kind, seed):
                                  {'z': ('alg', F(0)), 'pre': ('input', F(0)), 'gn': ('const', fp())}, output='z')
             etp['e' + nm] = EdgeTplSpec('e' + nm, [nm])
     # coupling/delay/spread kinds mostly with >= 2 units (size-1 populations hit the recorded n=1 finding)
-    lo = 1 if (kind in ('matrix', 'scalar') or (seed % 5 == 4 and kind not in ('delay2', 'spread2', 'dyncoupling', 'coupling2', 'coupling3', 'delay+spread', 'spread+delay'))) else 2
+    lo = 1 if (kind in ('matrix', 'scalar') or (seed % 5 == 4 and kind not in ('delay2', 'spread2', 'dyncoupling', 'coupling2', 'coupling3', 'coupling-self', 'same-source', 'delay+spread', 'spread+delay'))) else 2
     na = rnd.randint(lo, 3)
     nb = rnd.randint(lo, 3)
     if kind == 'xcoupling' and seed % 4 < 2:
@@ -120,6 +120,26 @@ def make_model(kind, seed):
             conns.append(Conn('b/o1/x', 'b/o1/w', Wm(nb, nb), edge='eckb', var_map={'pre': 'source'}))
         else:
             conns.append(Conn('b/o1/x', 'a/li/u', Wm(na, nb), edge='eckb', var_map={'pre': 'source'}))
+    elif kind == 'coupling-self':
+        # a population coupled onto itself (the coupling function reads the target-side variable) next to a second coupled
+        # input of the same target variable from the other population
+        if seed % 4 < 2:
+            own = Conn('b/o1/x', 'b/o1/u', Wm(nb, nb), edge='ce', var_map={'pre': 'source', 'post': 'b/o1/x'})
+            ext = Conn('a/li/x', 'b/o1/u', Wm(nb, na), edge='ce', var_map={'pre': 'source', 'post': 'b/o1/x'})
+            back = Conn('b/o1/x', 'a/li/u', Wm(na, nb))
+        else:
+            own = Conn('a/li/x', 'a/li/u', Wm(na, na), edge='ce', var_map={'pre': 'source', 'post': 'a/li/x'})
+            ext = Conn('b/o1/x', 'a/li/u', Wm(na, nb), edge='ce', var_map={'pre': 'source', 'post': 'a/li/x'})
+            back = Conn('a/li/x', 'b/o1/u', Wm(nb, na))
+        conns += ([own, ext] if seed % 2 else [ext, own]) + [back]
+    elif kind == 'same-source':
+        # two Connectivity objects from one source variable into one target variable
+        conns.append(Conn('a/li/x', 'b/o1/u', Wm(nb, na)))
+        if seed % 2:
+            conns.append(Conn('a/li/x', 'b/o1/u', Wm(nb, na), edge='c1', var_map={'pre': 'source'}))
+        else:
+            conns.append(Conn('a/li/x', 'b/o1/u', Wm(nb, na)))
+        conns.append(Conn('b/o1/x', 'a/li/u', Wm(na, nb)))
     elif kind == 'xcoupling':
         # coupling between two different populations whose operator reads a variable of the TARGET unit; every other
         # program gives the target variable a name of its own (v) so that it cannot be mistaken for the source's x
@@ -281,19 +301,19 @@ def run(tier='quick', seed=0, only=None, verbose=False):
         'NetworkGraph._generate_edge_equation cases 0a/0b/0c/0g, _add_matrix_delay (concrete)',
         'emitted helpers wsum / broadcast_pre / broadcast_post / reshape2d / flatten1d (symx); einsum library model'],
         bounds=dict(units='1..3 per population, two populations', kinds='matrix (sparse, signed, non-square), scalar weight, '
-                    'algebraic and dynamic coupling edges with source and target variables, two Connectivity objects whose coupling operators differ in constants only, discrete delay, delay+spread',
+                    'algebraic and dynamic coupling edges with source and target variables, two Connectivity objects whose coupling operators differ in constants only, self coupling next to a second coupled input, two Connectivity objects between one pair of variables, discrete delay, delay+spread',
                     builds='PopulationTemplate/Connectivity and explicit network (vectorize on/off)'),
         stubs=['numpy library model (einsum ij,ij->i as (W*C).sum(axis=1))'],
         assumptions=['reals for floats', 'dynamic coupling edges: pair states with the same differential equation and the same initial value are the same function of time and share one symbol (uniqueness of ODE solutions)',
                      'zero matrix entries mean no edge'])
     jobs = []
-    kinds = ['matrix', 'scalar', 'coupling', 'xcoupling', 'dyncoupling', 'coupling2', 'coupling3', 'delay+spread', 'spread+delay', 'delay', 'spread', 'delay2', 'spread2']
+    kinds = ['matrix', 'scalar', 'coupling', 'xcoupling', 'dyncoupling', 'coupling2', 'coupling3', 'coupling-self', 'same-source', 'delay+spread', 'spread+delay', 'delay', 'spread', 'delay2', 'spread2']
     n = 4 if tier == 'quick' else 30
     for kind in kinds:
         for i in range(n):
             jobs.append(dict(key=f"pop:{kind}:{seed}:{i}|population", kind=kind, seed=seed * 100 + i, build='population',
                              vectorize=True, spec=None))
-            if i < (2 if tier == 'quick' else 10) and kind not in ('coupling', 'xcoupling', 'dyncoupling', 'coupling2', 'coupling3'):
+            if i < (2 if tier == 'quick' else 10) and kind not in ('coupling', 'xcoupling', 'dyncoupling', 'coupling2', 'coupling3', 'coupling-self', 'same-source'):
                 for vec in (True, False):
                     jobs.append(dict(key=f"pop:{kind}:{seed}:{i}|explicit|vec={vec}", kind=kind, seed=seed * 100 + i,
                                      build='explicit', vectorize=vec, spec=None))
